@@ -3,12 +3,57 @@ from pyvc.contract import contract, field_type
 
 Q = 'biogeme.sampling_of_alternatives.sampling_of_alternatives.'
 
+_REPLAY_SEGMENTS = """
+from biogeme.sampling_of_alternatives.sampling_of_alternatives import generate_segment_size
+cands = [(integer(m.get('sample_size'), 7), integer(m.get('number_of_segments'), 3))]
+cands += [(s, n) for s in range(0, 14) for n in range(1, 7)] + [(-1, 3), (5, 0), (5, -2)]
+violated = False
+for s, n in cands:
+    bad_args = s < 0 or n <= 0
+    try:
+        r = generate_segment_size(s, n)
+        raised = False
+    except ValueError:
+        raised = True
+    if raised != bad_args:
+        violated, detail = True, f'generate_segment_size({s}, {n}): ValueError raised={raised}, expected {bad_args}'
+        break
+    if raised:
+        continue
+    ok = (len(r) == n and sum(r) == s and max(r) - min(r) <= 1
+          and all(r[q] == s // n + (1 if q < s % n else 0) for q in range(n)))
+    if not ok:
+        violated, detail = True, f'generate_segment_size({s}, {n}) = {r}'
+        break
+"""
+
+# shared by check_partition / Partition: acceptance of a context iff the side conditions hold
+_REPLAY_VALIDATION = """
+import sys
+sys.path.insert(0, '/verif/bounded')
+import c19_native
+n, bad = c19_native.run_validation()
+violated = bool(bad)
+detail = f'{n} candidate contexts; first mismatch: {bad[0] if bad else None}'
+"""
+
+# the sampling protocol on generated contexts through the real pandas (main + MEV sample)
+_REPLAY_PROTOCOL = """
+import sys
+import numpy as np
+sys.path.insert(0, '/verif/bounded')
+import c19_native
+n, bad = c19_native.run_protocol(np.random.default_rng(0), 30, (6, 3, 4), 3, 'protocol')
+violated = bool(bad)
+detail = f'{n} generated choice sets; first mismatch: {bad[0] if bad else None}'
+"""
+
 contract(Q + 'generate_segment_size', 'C19',
          types={'sample_size': 'int', 'number_of_segments': 'int'},
          raises={'ValueError': 'sample_size < 0 or number_of_segments <= 0'},
          ensures={
              'length': 'len(result) == number_of_segments',
-             'total': 'sum_range(lambda q: result[q], 0, number_of_segments) == sample_size',
+             # sum(result) == sample_size follows from `values` by LEMMA balanced-sum (induction; props/C19.py)
              'balanced': 'forall(lambda a: forall(lambda b: result[a] - result[b] <= 1 and result[b] - result[a] <= 1, '
                          '0, number_of_segments), 0, number_of_segments)',
              'values': 'forall(lambda q: result[q] == sample_size // number_of_segments + '
@@ -18,7 +63,8 @@ contract(Q + 'generate_segment_size', 'C19',
              'len': 'len(segment_sizes) == number_of_segments',
              'done': 'forall(lambda q: segment_sizes[q] == base_value + 1, 0, _k)',
              'todo': 'forall(lambda q: segment_sizes[q] == base_value, _k, number_of_segments)',
-         }}})
+         }}},
+         replay=_REPLAY_SEGMENTS)
 
 C = 'biogeme.sampling_of_alternatives.sampling_context.'
 field_type('StratumTuple', 'subset', 'set[int]')
@@ -27,15 +73,18 @@ field_type('SamplingContext', 'partition', 'list[biogeme.sampling_of_alternative
 
 # stratum q of self.partition violates the protocol's side conditions:
 #   empty, requested size not in 1..n, or an alternative id that is not in the table of alternatives
-_BAD = ("(len(self.partition[q].subset) == 0 or self.partition[q].sample_size <= 0 "
-        "or self.partition[q].sample_size > len(self.partition[q].subset) "
-        "or exists(lambda x: x in self.partition[q].subset and x not in self.alternatives[self.id_column].values))")
+_BAD_SIZE = ("(len(self.partition[q].subset) == 0 or self.partition[q].sample_size <= 0 "
+             "or self.partition[q].sample_size > len(self.partition[q].subset))")
+_BAD_ID = "exists(lambda x: x in self.partition[q].subset and x not in self.alternatives[self.id_column].values)"
+_BAD = f"({_BAD_SIZE} or {_BAD_ID})"
 
 contract(C + 'SamplingContext.check_partition', 'C19',
          raises={'BiogemeError': f'exists(lambda q: {_BAD}, 0, len(self.partition))'},
          modifies=[],
+         replay=_REPLAY_VALIDATION,
          invariants={
-             1: {'clauses': {'ok_so_far': f'forall(lambda q: not {_BAD}, 0, _k)'}},
+             1: {'clauses': {'sizes_ok_so_far': f'forall(lambda q: not {_BAD_SIZE}, 0, _k)',
+                             'ids_ok_so_far': f'forall(lambda q: not {_BAD_ID}, 0, _k)'}},
              2: {'clauses': {'known_so_far': 'forall(lambda j: set_elem(stratum.subset, j) in self.alternatives[self.id_column].values, 0, _k)'}},
          })
 
@@ -64,7 +113,7 @@ _MEV_CL = {
 }
 _MEV_Q = '(' + ' and '.join(_MEV_CL.values()) + ')'
 
-contract(Q + 'SamplingOfAlternatives.sample_mev_alternatives', 'C19',
+contract(Q + 'SamplingOfAlternatives.sample_mev_alternatives', 'C19', replay=_REPLAY_PROTOCOL,
          requires={'sizes_positive': 'forall(lambda q: self.second_partition[q].sample_size > 0, 0, len(self.second_partition))'},
          modifies=[],
          ensures={
@@ -94,7 +143,7 @@ _ALT_CL = {
 _ALT_Q = '(' + ' and '.join(_ALT_CL.values()) + ')'
 _SUB = 'pd_part(pd_part(result, 1), q)'
 
-contract(Q + 'SamplingOfAlternatives.sample_alternatives', 'C19',
+contract(Q + 'SamplingOfAlternatives.sample_alternatives', 'C19', replay=_REPLAY_PROTOCOL,
          types={'chosen': 'int'},
          requires={'strata_disjoint': 'forall(lambda a: forall(lambda b: implies(a != b, '
                                       'not exists(lambda x: x in self.partition[a].subset and x in self.partition[b].subset)), '
